@@ -284,7 +284,7 @@ let run_line (line : string) =
         | ["updcfg"; tr; rs] -> M.TUpdateConfig (p_opt p_str tr, p_opt p_routes rs)
         | _ -> failwith ("bad texec: " ^ line)) in
       incr step;
-      (match !tstore with Some s -> tapply (M.c_texecute s env (p_str sender) m) | None -> failwith "no tstore")
+      (match !tstore with Some s -> tapply (M.c_texecute s env (p_str sender) m) | None -> emit "res err"; emit "ts.none")
   | ["tquery"] ->
       incr step;
       (match !tstore with
@@ -292,7 +292,7 @@ let run_line (line : string) =
            let r = M.c_tquery s in
            emit "res %s" (res_class r);
            (match r with M.Ok ((a, t), rs) -> emit "q.tcfg %s %s %s" (s_str a) (s_str t) (s_routes rs) | _ -> ())
-       | None -> failwith "no tstore")
+       | None -> emit "res err")
   | ["tmig"; name; ver] ->
       incr step;
       (match !tstore with
@@ -300,7 +300,7 @@ let run_line (line : string) =
            let s' = { s with M.t_version = (p_str name, p_str ver) } in
            tstore := Some s';
            tapply (M.tmigrate s')
-       | None -> failwith "no tstore")
+       | None -> emit "res err"; emit "ts.none")
   | _ -> failwith ("unknown op: " ^ line))
   with No_store ->
     (* a call into a contract that was never instantiated: the real entry point fails on its first load *)
